@@ -81,6 +81,14 @@ BENIGN = [
     ('b15-swizzle-default-through-let', 'src/swizzles/vec_traits.rs', 'fn xy(self) -> Self {\n        self\n    }', 'fn xy(self) -> Self {\n        let v = self;\n        v\n    }', ['C16'], 'identity swizzle through a temporary'),
     ('b16-from-slice-doc-reworded', 'src/f32/vec3.rs', '/// # Panics\n    ///\n    /// Panics if `slice` is less than 3 elements long.\n    #[inline]\n    #[must_use]\n    pub const fn from_slice', '/// # Panics\n    ///\n    /// This function will panic when fewer than 3 elements are supplied.\n    #[inline]\n    #[must_use]\n    pub const fn from_slice', ['C18', 'C20'], 'rustdoc of a panic reworded'),
     ('b17-bvec3-display-fields', 'src/bool/bvec3.rs', 'let arr = self.into_bool_array();\n        write!(f, "[{}, {}, {}]", arr[0], arr[1], arr[2])', 'write!(f, "[{}, {}, {}]", self.x, self.y, self.z)', ['C15', 'C07'], 'Display reads the bool fields directly'),
+    ('b18-angle-between-lengths', 'src/f32/vec3.rs', '.div(math::sqrt(self.length_squared().mul(rhs.length_squared()))),', '.div(self.length().mul(rhs.length())),', ['C02', 'C04'], 'angle_between divides by the product of the lengths'),
+    ('b19-try-normalize-guard-form', 'src/f32/vec3.rs', 'pub fn try_normalize(self) -> Option<Self> {\n        let rcp = self.length_recip();\n        if rcp.is_finite() && rcp > 0.0 {', 'pub fn try_normalize(self) -> Option<Self> {\n        let rcp = self.length_recip();\n        if rcp > 0.0 && rcp < f32::INFINITY {', ['C02', 'C07', 'C20'], 'finite-and-positive written as two comparisons'),
+    ('b20-refract-strict-boundary', 'src/f32/vec3.rs', 'if k >= 0.0 {', 'if k > 0.0 {', ['C02'], 'refract: k == 0 on the other side'),
+    ('b21-dquat-mul-vec3-two-cross', 'src/f64/dquat.rs', 'rhs.mul(w * w - b2)\n            .add(b.mul(rhs.dot(b) * 2.0))\n            .add(b.cross(rhs).mul(w * 2.0))', 'let t = b.cross(rhs).mul(2.0);\n        let _ = b2;\n        rhs.add(t.mul(w)).add(b.cross(t))', ['C04', 'C20', 'C11'], 'q*v through the two-cross-product formula (equal for unit q)'),
+    ('b22-dquat-inverse-general', 'src/f64/dquat.rs', 'glam_assert!(self.is_normalized());\n        self.conjugate()', 'glam_assert!(self.is_normalized());\n        self.conjugate() / self.length_squared()', ['C04', 'C20', 'C12'], 'inverse as conjugate / |q|^2'),
+    ('b23-affine3a-point-via-mul-add', 'src/f32/affine3a.rs', 'pub fn transform_point3a(&self, rhs: Vec3A) -> Vec3A {\n        self.matrix3 * rhs + self.translation', 'pub fn transform_point3a(&self, rhs: Vec3A) -> Vec3A {\n        self.matrix3.x_axis.mul_add(Vec3A::splat(rhs.x), self.matrix3.y_axis.mul_add(Vec3A::splat(rhs.y), self.matrix3.z_axis.mul_add(Vec3A::splat(rhs.z), self.translation)))', ['C07', 'C06', 'C11', 'C08'], 'transform_point3a through nested (always fused) mul_add'),
+    ('b24-quat-shepperd-strict-guard', 'src/f32/sse2/quat.rs', 'if m22 <= 0.0 {', 'if m22 < 0.0 {', ['C05', 'C07'], 'Shepperd branch tie goes the other way'),
+    ('b25-mat3-neg-via-scalar', 'src/f32/mat3.rs', 'Self::from_cols(self.x_axis.neg(), self.y_axis.neg(), self.z_axis.neg())', 'self.mul_scalar(-1.0)', ['C03', 'C07'], 'matrix negation as multiplication by -1.0'),
     ('b09-cross-operand-order', 'src/f32/vec3.rs', 'x: self.y * rhs.z - rhs.y * self.z,', 'x: self.y * rhs.z - self.z * rhs.y,', ['C02', 'C03', 'C07', 'C11'], 'commuted product inside cross'),
 ]
 
